@@ -6,6 +6,7 @@ import solver_checks as SC
 import graph_checks as GC
 import gen_checks as NC
 import board_checks as BC
+import malformed_checks as MC
 
 N_GAMES = dict(quick=1500, thorough=40000)
 
@@ -23,6 +24,7 @@ def games_nonabs(rng, tier):
 
 
 CHECKERS = {
+    'malformed': MC.check_malformed,
     'board': BC.check_board,
     'params': NC.check_params,
     'names': NC.check_names,
@@ -47,3 +49,5 @@ SUITES['C17'] = [dict(name='file-names', gen=NC.gen_names, checker='names')]
 
 SUITES['C08'] = [dict(name='boards-vs-roborta-game', gen=BC.gen_boards, checker='board')]
 SUITES['C11'] = [dict(name='boards-file-proper', gen=BC.gen_boards, checker='board'), dict(name='parameter-sets-and-boards', gen=NC.gen_params, checker='params')]
+
+SUITES['C09'] = [dict(name='malformed-games', gen=MC.gen_malformed, checker='malformed')]
